@@ -149,6 +149,11 @@ fn oracle_c26(l: &mut Ledger, v: &mut StepView) -> Option<(String, String)> {
         }
     }
     if acked_put && v.after.seq != v.reference.next_id() { v.world.branches.push("seq-differs-from-frame-id".into()); }
+    // the repaired put_internal reads the id off next_frame_id(): it must predict the id of the next document
+    if !matches!(v.op, Op::Crash) && v.after.next_frame_id != v.reference.next_id() {
+        return Some(("next-frame-id-is-not-the-next-document-id".into(), format!(
+            "next_frame_id() = {} after `{}`, the next document will be insert number {}", v.after.next_frame_id, v.op.name(), v.reference.next_id())));
+    }
     None
 }
 
